@@ -523,6 +523,7 @@ def run(ctx):
     literal_narrowing(ctx)
     cast_width(ctx)
     trait_productions(ctx)
+    short_circuit_second_operand(ctx)
 
     # ------------------------------------------------------------ R07.6
     n_c = 0
@@ -1025,3 +1026,99 @@ def trait_productions(ctx):
     # the reader agrees with the compiled parser
     calls = sum(1 for f in db.functions if f.file.endswith("cppBison.cxx") for c in f.walk() if c.get("k") == "call" and callee_short(c) == "type_trait")
     ctx.ob("R07.13", "type-trait-productions|reader-agrees-with-compiler", calls == n, "src/cppparser/cppBison.yxx", "%d productions read from the grammar, %d type_trait() calls in the generated parser" % (n, calls))
+
+
+def short_circuit_second_operand(ctx):
+    """R07.14: evaluate() returns the error result for every binary operator whose second operand is unevaluable - except
+    for the operators its early return lets through (`||`, `&&`: the second operand may not be needed).  In the arms of
+    exactly those operators r2 can still be the error result, and Result::as_boolean()/as_integer() of an error result is
+    0 (the assert is compiled out): `false || int(2)` would be recorded as 0 instead of "not evaluated".  Every use of
+    r2's value in such an arm must therefore sit behind a test that r2 is not the error result.  (Seed S6-C07.)"""
+    db = ctx.db
+    ctx.rule("R07.14", "in evaluate(), the arms of the operators exempted from the `second operand unevaluable -> error` early return use r2.as_*() only behind `r2._type != RT_error` (or a test that it is a specific evaluated kind)")
+    ev = db.fn("CPPExpression::evaluate")
+    tv = token_values(db)
+    sw = None
+    for n in ev.walk():
+        if n.get("k") == "switch" and (field_of(n["c"]) or "").endswith("_operator"):
+            sw = n
+    if sw is None:
+        ctx.broken("R07.14: evaluate(): operator switch not found")
+    r2 = None
+    for n in ev.walk():
+        t = assigned_target(n)
+        if t:
+            l = local_ref(t[0])
+            r = peel(t[1])
+            if l is not None and r is not None and r.get("k") == "call" and callee_short(r) == "evaluate" and "this" in r and (field_of(r["this"]) or "").endswith("_op2"):
+                r2 = l["d"]
+    if r2 is None:
+        ctx.broken("R07.14: evaluate(): r2 not identified")
+
+    def r2_type_cmp(atom):
+        c = G.cmp_atom(atom)
+        if not c:
+            return None
+        op, u, v = c
+        for p, q in ((u, v), (v, u)):
+            pp = strip_casts(peel(p)) if p is not None else None
+            if pp is not None and pp.get("k") == "mem" and (pp.get("n") or "").endswith("Result::_type") and (local_ref(pp.get("b")) or {}).get("d") == r2:
+                qq = strip_casts(peel(q)) if q is not None else None
+                return op, (qq or {}).get("n", "").split("::")[-1]
+        return None
+    # the exempted operators: `r2._type == RT_error && (op != A && op != B ...)` guarding a return
+    exempt = set()
+    for n in ev.walk():
+        if n.get("k") != "if":
+            continue
+        leaves = []
+
+        def flat(m):
+            m = peel(m)
+            if m is not None and m.get("k") == "bin" and m.get("op") == "&&":
+                flat(m["x"]); flat(m["y"])
+            elif m is not None:
+                leaves.append(m)
+        flat(n["c"])
+        if not any(r2_type_cmp(l) == ("==", "RT_error") for l in leaves):
+            continue
+        for l in leaves:
+            c = G.cmp_atom(l)
+            if c and c[0] == "!=" and any((field_of(z) or "").endswith("_operator") for z in c[1:] if z is not None):
+                for z in c[1:]:
+                    v = const_int(z)
+                    if v is not None:
+                        exempt.add(v)
+    if not exempt:
+        ctx.broken("R07.14: the early return for an unevaluable second operand (and its exempted operators) was not found")
+    tv_rev = {v: k for k, v in tv.items()}
+    n = 0
+    for labs, stmts in switch_arms(sw):
+        hit = [v for v in labs if v in exempt]
+        if not hit or not stmts:
+            continue
+        # entry block of the arm: the first thing the arm evaluates (a statement as such is not a CFG element)
+        start = None
+        for x in walk(stmts[0]):
+            start = ev.cfg.locate(x)
+            if start is not None:
+                break
+        uses = [c for st in stmts for c in walk(st) if c.get("k") == "call" and callee_short(c) in ("as_boolean", "as_integer", "as_real", "as_pointer")
+                and (local_ref(c.get("this")) or {}).get("d") == r2]
+
+        def evaluated(atom, truth):
+            c = r2_type_cmp(atom)
+            if not c:
+                return False
+            op, name = c
+            if not truth:
+                op = G.NEG[op]
+            return (name == "RT_error" and op == "!=") or (name.startswith("RT_") and name != "RT_error" and op == "==")
+        edges = G.edges_where(ev, evaluated)
+        for u in uses:
+            n += 1
+            lu = ev.cfg.locate(u)
+            ok = start is not None and lu is not None and lu[0] not in ev.cfg.reachable(start[0], cut_edges=edges)
+            ctx.ob("R07.14", "evaluate|%s|%s" % (op_name(hit[0], tv_rev), _norm_cond(show(u)) if False else show(u)), ok, ev.loc(u),
+                   "`%s` in the %s arm is %sbehind a test that r2 was evaluated" % (show(u), op_name(hit[0], tv_rev), "" if ok else "NOT "))
+    ctx.floor("R07.14", "uses of r2's value in the arms of short-circuit operators", n, 2)
